@@ -1152,7 +1152,9 @@ func (r *RouteTable) resyncIface(nl netlinkshim.Interface, ifaceName string) err
 				"flags":       routeFilterFlags,
 			}).Error("Error listing routes")
 			r.nl.MarkHandleForReopen()
-			return nil
+			// Return the error so that the caller leaves the interface queued for
+			// rescan and Apply() reports the failure and retries.
+			return filteredErr
 		} else {
 			r.logCxt.WithError(filteredErr).WithField("iface", ifaceName).Debug(
 				"Failed to list routes; interface down/gone.")
